@@ -261,15 +261,16 @@ Inductive pweight := PWConst (c : T) | PWArr (a : list T).
 Inductive space := SLeaf (lf : leaf) | SProd (w : pweight) (p : expo) (cs : list space).
 Inductive elem := ELeaf (x : list T) | ENode (xs : list elem).
 
-Fixpoint esub (x y : elem) : elem :=
+Definition zip_with {A : Type} (f : A -> A -> A) :=
+  fix go (xs ys : list A) : list A :=
+    match xs, ys with
+    | a :: xs', b :: ys' => f a b :: go xs' ys'
+    | _, _ => []
+    end.
+Fixpoint esub (x y : elem) {struct x} : elem :=
   match x, y with
   | ELeaf a, ELeaf b => ELeaf (vsub a b)
-  | ENode xs, ENode ys =>
-      ENode ((fix go (xs ys : list elem) : list elem :=
-                match xs, ys with
-                | a :: xs', b :: ys' => esub a b :: go xs' ys'
-                | _, _ => []
-                end) xs ys)
+  | ENode xs, ENode ys => ENode (zip_with esub xs ys)
   | _, _ => ENode []
   end.
 Fixpoint escal (a : T) (x : elem) : elem :=
@@ -277,15 +278,10 @@ Fixpoint escal (a : T) (x : elem) : elem :=
   | ELeaf v => ELeaf (vscal a v)
   | ENode xs => ENode (map (escal a) xs)
   end.
-Fixpoint eadd (x y : elem) : elem :=
+Fixpoint eadd (x y : elem) {struct x} : elem :=
   match x, y with
   | ELeaf a, ELeaf b => ELeaf (vadd a b)
-  | ENode xs, ENode ys =>
-      ENode ((fix go (xs ys : list elem) : list elem :=
-                match xs, ys with
-                | a :: xs', b :: ys' => eadd a b :: go xs' ys'
-                | _, _ => []
-                end) xs ys)
+  | ENode xs, ENode ys => ENode (zip_with eadd xs ys)
   | _, _ => ENode []
   end.
 
